@@ -43,6 +43,12 @@ pub const FMT_MINIS: &[&str] = &[
     "let f = { fn (x) (y) => ret (x, (y)) } in ! f 1 2",
     "fn x => fn y => fn z => ret (x, y, z)",
     "fn x => (fn y => ret y)",
+    // characters Rust's Debug formatting escapes but the language's lexer has no escape for
+    "ret \"a\u{1}b\"",
+    "ret \"\u{7f}\u{1b}\u{0}\"",
+    "ret \"x\u{200b}y\u{ad}z\u{feff}\"",
+    "ret \"line one\nline two\"",
+    "ret ('\\'', '\\\\', '\"', \"'\")",
     "let s =\n--| line one\n--| line two\n--|\n@[literal] _ in ret s",
     "let s =\n--|\n@[literal] _ in ret s",
     "let s =\n--| first\n--|\n--| third\n@(literal) in ret s",
@@ -80,6 +86,8 @@ pub const FMT_MINIS: &[&str] = &[
     "exists ((x)) . T",
     "exists ((a, b)) . T",
     "exists ((a = x) as D) . T",
+    "let x = @[format(verbatim)] (1,  2) in ret x",
+    "let f = @[format(verbatim)] { fn x =>   ret (x, 1) } in ! f 2",
     "@[format(verbatim)] /- ] -/ x",
     "@[format(verbatim)] -- see [1] here\nret x",
     "pi (n : Nat) . (fn (A : VType) => Vec n A)",
@@ -359,6 +367,25 @@ fn durable_tokens(src: &str) -> Vec<String> {
                 }
             } else if t.kind == K::Int {
                 w.trim_start_matches('+').to_string()
+            } else if t.kind == K::Str && w.len() >= 2 {
+                // string literals are compared by the value the language's escapes denote (\\ \" \n \r \t,
+                // any other escaped character stands for itself): a raw newline may be respelled `\n`
+                let mut v = String::new();
+                let mut it = w[1..w.len() - 1].chars();
+                while let Some(c) = it.next() {
+                    if c == '\\' {
+                        match it.next() {
+                            | Some('n') => v.push('\n'),
+                            | Some('r') => v.push('\r'),
+                            | Some('t') => v.push('\t'),
+                            | Some(o) => v.push(o),
+                            | None => v.push('\\'),
+                        }
+                    } else {
+                        v.push(c);
+                    }
+                }
+                format!("str:{:?}", v)
             } else {
                 w.to_string()
             }
@@ -491,7 +518,8 @@ impl Check for Fmt {
                 if inside_verbatim_annotation {
                     "inside a `@[format(verbatim)]` annotation".to_string()
                 } else {
-                    format!("between `{}` and `{}`", show(if *k == 0 { None } else { base.toks.get(*k - 1) }), show(base.toks.get(*k)))
+                    // a verbatim region is copied, not printed: deviations inside such sources are a class of their own
+                    format!("between `{}` and `{}`{}", show(if *k == 0 { None } else { base.toks.get(*k - 1) }), show(base.toks.get(*k)), if base.text.contains("format(verbatim)") { " (source with a `@[format(verbatim)]` region)" } else { "" })
                 }
             }
             | Dev::None => "undeviated".to_string(),
